@@ -818,3 +818,212 @@ theorem back_fold {n nb : Nat} (tol : K) (m1 : Array K) (hsz : n*(n+nb) ≤ m1.s
       show get2 (n+nb) m3 i i = _
       rw [hg3 i i (by omega), if_neg (by omega), h2o i i (by omega) (by omega)]
       exact inv.diag i (by omega)
+
+/-! ### loops that fill cells with values not depending on the array being written -/
+
+theorem fill_row_fold {w rows : Nat} (g : Nat → K) (step : Array K → Nat → Array K)
+    (i off : Nat) (hstep : ∀ r j, step r j = wr r (w*i + (off + j)) (g j)) (r0 : Array K)
+    (hsz : rows*w ≤ r0.size) (hi : i < rows) (t : Nat) (ht : off + t ≤ w) :
+    ((List.range t).foldl step r0).size = r0.size ∧
+    ∀ i' j', j' < w → get2 w ((List.range t).foldl step r0) i' j' =
+      if i' = i ∧ off ≤ j' ∧ j' < off + t then g (j' - off) else get2 w r0 i' j' := by
+  induction t with
+  | zero =>
+    refine ⟨by simp, ?_⟩
+    intro i' j' hj
+    rw [if_neg (by omega)]; rfl
+  | succ t ih =>
+    obtain ⟨hs, hg⟩ := ih (by omega)
+    rw [List.range_succ, List.foldl_append]
+    simp only [List.foldl_cons, List.foldl_nil]
+    generalize (List.range t).foldl step r0 = r at hs hg
+    rw [hstep]
+    have hc : off + t < w := by omega
+    have hb : w*i + (off + t) < r.size := by rw [hs]; exact lt_of_lt_of_le (flat_lt hi hc) hsz
+    refine ⟨by rw [size_wr, hs], ?_⟩
+    intro i' j' hj
+    rw [get2_wr r i (off + t) i' j' _ hc hj hb, hg i' j' hj]
+    by_cases h1 : i' = i ∧ j' = off + t
+    · rw [if_pos h1, if_pos ⟨h1.1, by omega, by omega⟩]
+      have : j' - off = t := by omega
+      rw [this]
+    · rw [if_neg h1]
+      by_cases h2 : i' = i ∧ off ≤ j' ∧ j' < off + t
+      · rw [if_pos h2, if_pos ⟨h2.1, h2.2.1, by omega⟩]
+      · rw [if_neg h2, if_neg (by omega)]
+
+theorem fill_fold {w rows : Nat} (g : Nat → Nat → K) (rowstep : Array K → Nat → Array K)
+    (sz : Nat)
+    (hrow : ∀ r i, i < rows → r.size = sz → (rowstep r i).size = sz ∧
+      ∀ i' j', j' < w → get2 w (rowstep r i) i' j' = if i' = i then g i j' else get2 w r i' j')
+    (r0 : Array K) (hsz : r0.size = sz) (t : Nat) (ht : t ≤ rows) :
+    ((List.range t).foldl rowstep r0).size = sz ∧
+    ∀ i' j', j' < w → get2 w ((List.range t).foldl rowstep r0) i' j' =
+      if i' < t then g i' j' else get2 w r0 i' j' := by
+  induction t with
+  | zero => exact ⟨by simpa using hsz, fun i' j' hj => by simp⟩
+  | succ t ih =>
+    obtain ⟨hs, hg⟩ := ih (by omega)
+    rw [List.range_succ, List.foldl_append]
+    simp only [List.foldl_cons, List.foldl_nil]
+    generalize (List.range t).foldl rowstep r0 = r at hs hg
+    obtain ⟨h1, h2⟩ := hrow r t (by omega) hs
+    refine ⟨h1, ?_⟩
+    intro i' j' hj
+    rw [h2 i' j' hj, hg i' j' hj]
+    by_cases h : i' = t
+    · rw [if_pos h, if_pos (by omega), h]
+    · rw [if_neg h]
+      by_cases h3 : i' < t
+      · rw [if_pos h3, if_pos (by omega)]
+      · rw [if_neg h3, if_neg (by omega)]
+
+/-- the final copy: `result[nb*i + c] = m[nt*i + n + c]` -/
+theorem copyOut_spec (m res : Array K) (n nb : Nat) (hsz : n*nb ≤ res.size) :
+    (copyOut m n nb res).size = res.size ∧
+    ∀ i c, c < nb → get2 nb (copyOut m n nb res) i c =
+      if i < n then get2 (n+nb) m i (n + c) else get2 nb res i c := by
+  refine fill_fold (w := nb) (rows := n) (fun i c => get2 (n+nb) m i (n + c)) (copyRow m n nb)
+    res.size ?_ res rfl n (le_refl _)
+  intro r i hi hr
+  obtain ⟨h1, h2⟩ := fill_row_fold (w := nb) (rows := n) (fun c => get2 (n+nb) m i (n + c))
+    (copyCell m n nb i) i 0 (fun r j => by
+      simp only [copyCell, get2, Nat.zero_add, Nat.add_assoc]) r (by rw [hr]; exact hsz) hi nb
+    (by omega)
+  refine ⟨by rw [copyRow, h1, hr], ?_⟩
+  intro i' j' hj
+  rw [copyRow, h2 i' j' hj]
+  by_cases h : i' = i
+  · rw [if_pos ⟨h, by omega, by omega⟩, if_pos h]; simp
+  · rw [if_neg (by omega), if_neg h]
+
+/-! ### `gj_solve` as a whole -/
+
+/-- the value `forward` leaves at the last diagonal position is non-zero -/
+def LastPivotNonzero (tol : K) (m : Array K) (n nb : Nat) : Prop :=
+  ∀ m1, forward tol n nb m = some m1 → 0 < n → get2 (n+nb) m1 (n-1) (n-1) ≠ 0
+
+theorem gjSolve_sound_core {n nb : Nat} (tol : K) (htol : 0 < tol) (m res : Array K)
+    (hsz : n*(n+nb) ≤ m.size) (hres : n*nb ≤ res.size)
+    (hret : (gjSolve tol m n nb res).singular = false)
+    (hlast : LastPivotNonzero tol m n nb) :
+    ∀ c, c < nb → ∀ i, i < n →
+      ∑ j ∈ Finset.range n,
+        get2 (n+nb) m i j * rd (gjSolve tol m n nb res).result (nb*j + c) =
+      get2 (n+nb) m i (n + c) := by
+  intro c hc
+  have hfw := forward_spec tol htol m hsz
+  unfold gjSolve finish at hret ⊢
+  cases hf : forward tol n nb m with
+  | none => rw [hf] at hret; simp at hret
+  | some m1 =>
+    rw [hf] at hfw
+    have hd : ∀ i, i < n → get2 (n+nb) m1 i i ≠ 0 := by
+      intro i hi
+      by_cases hl : i + 1 < n
+      · intro h0
+        have := hfw.piv i hi hl
+        rw [h0, abs_zero] at this
+        exact this htol
+      · have : i = n - 1 := by omega
+        rw [this]; exact hlast m1 hf (by omega)
+    obtain ⟨m2, hb, inv⟩ := back_fold tol m1 (by rw [hfw.size]; exact hsz) hfw.lz hd n (le_refl _)
+    have hb' : backSubst tol n nb m1 = some m2 := hb
+    simp only [hb']
+    obtain ⟨_, hcp⟩ := copyOut_spec m2 res n nb hres
+    have hsol : Sol n (get2 (n+nb) m2) (fun j => get2 (n+nb) m2 j (n + c)) (n + c) := by
+      intro i hi
+      rw [Finset.sum_eq_single i]
+      · rw [inv.done i (by omega) hi i hi, if_pos rfl, one_mul]
+      · intro j hj hji
+        rw [inv.done j (by omega) (Finset.mem_range.mp hj) i hi, if_neg (Ne.symm hji), zero_mul]
+      · intro h; exact absurd (Finset.mem_range.mpr hi) h
+    have := (hfw.ops.trans inv.ops).sol (by omega) _ (n + c) (by omega) hsol
+    intro i hi
+    rw [← this i hi]
+    apply Finset.sum_congr rfl
+    intro j hj
+    have hjn := Finset.mem_range.mp hj
+    have e : rd (copyOut m2 n nb res) (nb*j + c) = get2 nb (copyOut m2 n nb res) j c := rfl
+    rw [e, hcp j c hc, if_pos hjn]
+
+/-- when the repaired `gj_solve` reports a singular matrix, either the forward phase met a
+column all of whose candidate pivots are below `tol`, or it finished and the last diagonal
+entry of the triangular form is exactly zero -/
+theorem gjSolve_singular_cases {n nb : Nat} (tol : K) (htol : 0 < tol) (m res : Array K)
+    (hsz : n*(n+nb) ≤ m.size)
+    (hret : (gjSolve tol m n nb res).singular = true) :
+    TinyColumn n (n+nb) tol m ∨
+    ∃ m1, forward tol n nb m = some m1 ∧ FwdInv n (n+nb) tol m m1 n ∧ 0 < n ∧
+      get2 (n+nb) m1 (n-1) (n-1) = 0 := by
+  have hfw := forward_spec tol htol m hsz
+  unfold gjSolve finish at hret
+  cases hf : forward tol n nb m with
+  | none => rw [hf] at hfw; exact Or.inl hfw
+  | some m1 =>
+    rw [hf] at hfw hret
+    right
+    by_contra hcon
+    have hd : ∀ i, i < n → get2 (n+nb) m1 i i ≠ 0 := by
+      intro i hi
+      by_cases hl : i + 1 < n
+      · intro h0
+        have := hfw.piv i hi hl
+        rw [h0, abs_zero] at this
+        exact this htol
+      · have e : i = n - 1 := by omega
+        intro h0
+        exact hcon ⟨m1, rfl, hfw, by omega, by rw [← e]; exact h0⟩
+    obtain ⟨m2, hb, _⟩ := back_fold tol m1 (by rw [hfw.size]; exact hsz) hfw.lz hd n (le_refl _)
+    have hb' : backSubst tol n nb m1 = some m2 := hb
+    simp [hb'] at hret
+
+/-- after the row exchange the pivot position holds an entry of largest absolute value
+among the candidates `m[i,k]`, `k ≤ i < n` (partial pivoting) -/
+theorem pivot_is_column_max {n nt : Nat} (m : Array K) (k : Nat) (hsz : n*nt ≤ m.size)
+    (hk : k < n) (hn : n ≤ nt) (i : Nat) (hi1 : k ≤ i) (hi2 : i < n) :
+    |get2 nt m i k| ≤ |get2 nt (swapRows nt nt k (pivotRow m nt n k) m) k k| := by
+  obtain ⟨h1, h2, h3⟩ := pivotRow_spec (nt := nt) m k hk
+  obtain ⟨_, hg⟩ := get2_swapRows (n := n) m k (pivotRow m nt n k) hsz hk h2
+  rw [hg k k (by omega), if_pos rfl]
+  exact h3 i hi1 hi2
+
+/-! ### the pinned code's pre-pass moves nothing (DESIGN §7 F5) -/
+
+theorem wr_rd_self (a : Array K) (p : Nat) : wr a p (rd a p) = a := by
+  apply Array.ext_getElem?
+  intro i
+  simp only [wr, rd, Array.getD_eq_getD_getElem?, Array.getElem?_setIfInBounds]
+  by_cases h : p = i
+  · subst h
+    by_cases h2 : p < a.size
+    · simp [h2]
+    · simp [h2]
+  · simp [h]
+
+theorem prepassStep_snd (nt col : Nat) (st : Nat × Array K) (row : Nat) :
+    (prepassStep nt col st row).2 = st.2 := by
+  obtain ⟨b, m⟩ := st
+  unfold prepassStep
+  simp only
+  split
+  · simp only [wr_rd_self]
+  · rfl
+
+theorem prepassCol_eq (n nt : Nat) (m : Array K) (col : Nat) : prepassCol n nt m col = m := by
+  unfold prepassCol
+  have : ∀ (l : List Nat) (st : Nat × Array K),
+      (l.foldl (prepassStep nt col) st).2 = st.2 := by
+    intro l
+    induction l with
+    | nil => intro st; rfl
+    | cons x xs ih => intro st; rw [List.foldl_cons, ih, prepassStep_snd]
+  exact this _ _
+
+/-- F5, for every input: the "pivoting" pre-pass of the pinned `gj_solve` returns the
+matrix unchanged -/
+theorem prepass_eq (n nt : Nat) (m : Array K) : prepass n nt m = m := by
+  unfold prepass
+  induction (List.range n) generalizing m with
+  | nil => rfl
+  | cons x xs ih => rw [List.foldl_cons, prepassCol_eq, ih]
